@@ -31,7 +31,8 @@ type frame struct {
 	caller           *frame
 	fn               *ssa.Function
 	block, prevBlock *ssa.BasicBlock
-	env              map[ssa.Value]value
+	info             *fnInfo
+	env              []value
 	locals           []value
 	defers           []deferred
 	result           value
@@ -40,6 +41,12 @@ type frame struct {
 }
 
 func (fr *frame) get(key ssa.Value) value {
+	if i, ok := fr.info.idx[key]; ok {
+		if i >= 0 {
+			return fr.env[i]
+		}
+		return fr.info.consts[-i-1]
+	}
 	switch key := key.(type) {
 	case nil:
 		return nil
@@ -58,10 +65,94 @@ func (fr *frame) get(key ssa.Value) value {
 		}
 		panic(fmt.Sprintf("get: no global %v", key))
 	}
-	if r, ok := fr.env[key]; ok {
-		return r
-	}
 	panic(fmt.Sprintf("get: no value for %T: %v", key, key.Name()))
+}
+
+func (fr *frame) set(key ssa.Value, v value) {
+	fr.env[fr.info.idx[key]] = v
+}
+
+// fnInfo is the per-function register numbering and constant pool (built once,
+// read-only afterwards, shared by all workers).
+type fnInfo struct {
+	idx         map[ssa.Value]int32
+	nregs       int
+	consts      []value
+	ext         externalFn
+	skipInit    bool
+	firstNonPhi map[*ssa.BasicBlock]int
+}
+
+func (sh *Shared) infoFor(fn *ssa.Function) *fnInfo {
+	if v, ok := sh.fnInfos.Load(fn); ok {
+		return v.(*fnInfo)
+	}
+	info := &fnInfo{idx: make(map[ssa.Value]int32), firstNonPhi: make(map[*ssa.BasicBlock]int)}
+	reg := func(v ssa.Value) {
+		if _, ok := info.idx[v]; !ok {
+			info.idx[v] = int32(info.nregs)
+			info.nregs++
+		}
+	}
+	for _, p := range fn.Params {
+		reg(p)
+	}
+	for _, fv := range fn.FreeVars {
+		reg(fv)
+	}
+	for _, l := range fn.Locals {
+		reg(l)
+	}
+	var ops []*ssa.Value
+	for _, b := range fn.Blocks {
+		fnp := len(b.Instrs)
+		for i, in := range b.Instrs {
+			if _, isPhi := in.(*ssa.Phi); !isPhi && i < fnp {
+				fnp = i
+			}
+			if v, ok := in.(ssa.Value); ok {
+				reg(v)
+			}
+			ops = in.Operands(ops[:0])
+			for _, op := range ops {
+				if op == nil || *op == nil {
+					continue
+				}
+				if c, ok := (*op).(*ssa.Const); ok {
+					if _, seen := info.idx[c]; seen {
+						continue
+					}
+					cv := constValue(c)
+					switch cv.(type) {
+					case structure, array:
+						continue // fresh value per use
+					}
+					info.consts = append(info.consts, cv)
+					info.idx[c] = int32(-len(info.consts))
+				}
+			}
+		}
+		info.firstNonPhi[b] = fnp
+	}
+	if fn.Parent() == nil {
+		info.ext = externals[fn.String()]
+		if fn.Name() == "init" && fn.Pkg != nil && fn == fn.Pkg.Func("init") {
+			if fn.Pkg != sh.target && !initWhitelist[fn.Pkg.Pkg.Path()] {
+				info.skipInit = true
+			}
+		}
+	}
+	actual, _ := sh.fnInfos.LoadOrStore(fn, info)
+	return actual.(*fnInfo)
+}
+
+func (m *Machine) infoFor(fn *ssa.Function) *fnInfo {
+	if i, ok := m.fnCache[fn]; ok {
+		return i
+	}
+	i := m.sh.infoFor(fn)
+	m.fnCache[fn] = i
+	return i
 }
 
 func (m *Machine) tpanic(format string, a ...interface{}) {
@@ -108,35 +199,35 @@ func (m *Machine) visitInstr(fr *frame, instr ssa.Instruction) continuation {
 		// no-op
 
 	case *ssa.UnOp:
-		fr.env[instr] = m.unop(instr, fr.get(instr.X))
+		fr.set(instr, m.unop(instr, fr.get(instr.X)))
 
 	case *ssa.BinOp:
-		fr.env[instr] = m.binop(instr.Op, instr.X.Type(), instr.Y.Type(), fr.get(instr.X), fr.get(instr.Y))
+		fr.set(instr, m.binop(instr.Op, instr.X.Type(), instr.Y.Type(), fr.get(instr.X), fr.get(instr.Y)))
 
 	case *ssa.Call:
 		fn, args := m.prepareCall(fr, &instr.Call)
-		fr.env[instr] = m.call(fr, instr.Pos(), fn, args)
+		fr.set(instr, m.call(fr, instr.Pos(), fn, args))
 
 	case *ssa.ChangeInterface:
-		fr.env[instr] = fr.get(instr.X)
+		fr.set(instr, fr.get(instr.X))
 
 	case *ssa.ChangeType:
-		fr.env[instr] = fr.get(instr.X)
+		fr.set(instr, fr.get(instr.X))
 
 	case *ssa.Convert:
-		fr.env[instr] = m.conv(instr.Type(), instr.X.Type(), fr.get(instr.X))
+		fr.set(instr, m.conv(instr.Type(), instr.X.Type(), fr.get(instr.X)))
 
 	case *ssa.SliceToArrayPointer:
-		fr.env[instr] = sliceToArrayPointer(instr.Type(), instr.X.Type(), fr.get(instr.X))
+		fr.set(instr, sliceToArrayPointer(instr.Type(), instr.X.Type(), fr.get(instr.X)))
 
 	case *ssa.MakeInterface:
-		fr.env[instr] = iface{t: instr.X.Type(), v: fr.get(instr.X)}
+		fr.set(instr, iface{t: instr.X.Type(), v: fr.get(instr.X)})
 
 	case *ssa.Extract:
-		fr.env[instr] = fr.get(instr.Tuple).(tuple)[instr.Index]
+		fr.set(instr, fr.get(instr.Tuple).(tuple)[instr.Index])
 
 	case *ssa.Slice:
-		fr.env[instr] = m.slice(fr.get(instr.X), fr.get(instr.Low), fr.get(instr.High), fr.get(instr.Max))
+		fr.set(instr, m.slice(fr.get(instr.X), fr.get(instr.Low), fr.get(instr.High), fr.get(instr.Max)))
 
 	case *ssa.Return:
 		switch len(instr.Results) {
@@ -200,59 +291,59 @@ func (m *Machine) visitInstr(fr *frame, instr ssa.Instruction) continuation {
 
 	case *ssa.MakeChan:
 		sz := m.concreteInt(fr.get(instr.Size), "chan size")
-		fr.env[instr] = &chanV{cap: int(sz)}
+		fr.set(instr, &chanV{cap: int(sz)})
 
 	case *ssa.Alloc:
 		var addr *value
 		if instr.Heap {
 			addr = new(value)
-			fr.env[instr] = addr
+			fr.set(instr, addr)
 		} else {
-			addr = fr.env[instr].(*value)
+			addr = fr.get(instr).(*value)
 		}
 		*addr = zero(mustDeref(instr.Type()))
 
 	case *ssa.MakeSlice:
-		fr.env[instr] = m.makeSlice(instr, fr.get(instr.Len), fr.get(instr.Cap))
+		fr.set(instr, m.makeSlice(instr, fr.get(instr.Len), fr.get(instr.Cap)))
 
 	case *ssa.MakeMap:
 		mt := instr.Type().Underlying().(*types.Map)
-		fr.env[instr] = newMapV(mt.Key(), mt.Elem())
+		fr.set(instr, newMapV(mt.Key(), mt.Elem()))
 
 	case *ssa.Range:
-		fr.env[instr] = m.rangeIter(fr.get(instr.X), instr.X.Type())
+		fr.set(instr, m.rangeIter(fr.get(instr.X), instr.X.Type()))
 
 	case *ssa.Next:
-		fr.env[instr] = fr.get(instr.Iter).(iter).next()
+		fr.set(instr, fr.get(instr.Iter).(iter).next())
 
 	case *ssa.FieldAddr:
 		p := m.derefCheck(fr.get(instr.X).(*value))
-		fr.env[instr] = &(*p).(structure)[instr.Field]
+		fr.set(instr, &(*p).(structure)[instr.Field])
 
 	case *ssa.Field:
-		fr.env[instr] = fr.get(instr.X).(structure)[instr.Field]
+		fr.set(instr, fr.get(instr.X).(structure)[instr.Field])
 
 	case *ssa.IndexAddr:
-		fr.env[instr] = m.indexAddr(fr.get(instr.X), fr.get(instr.Index))
+		fr.set(instr, m.indexAddr(fr.get(instr.X), fr.get(instr.Index)))
 
 	case *ssa.Index:
-		fr.env[instr] = m.index(fr.get(instr.X), fr.get(instr.Index), instr.Type())
+		fr.set(instr, m.index(fr.get(instr.X), fr.get(instr.Index), instr.Type()))
 
 	case *ssa.Lookup:
-		fr.env[instr] = m.lookup(instr, fr.get(instr.X), fr.get(instr.Index))
+		fr.set(instr, m.lookup(instr, fr.get(instr.X), fr.get(instr.Index)))
 
 	case *ssa.MapUpdate:
 		m.mapUpdate(fr.get(instr.Map), fr.get(instr.Key), fr.get(instr.Value))
 
 	case *ssa.TypeAssert:
-		fr.env[instr] = m.typeAssert(instr, fr.get(instr.X).(iface))
+		fr.set(instr, m.typeAssert(instr, fr.get(instr.X).(iface)))
 
 	case *ssa.MakeClosure:
 		bindings := make([]value, 0, len(instr.Bindings))
 		for _, binding := range instr.Bindings {
 			bindings = append(bindings, fr.get(binding))
 		}
-		fr.env[instr] = &closure{instr.Fn.(*ssa.Function), bindings}
+		fr.set(instr, &closure{instr.Fn.(*ssa.Function), bindings})
 
 	case *ssa.Phi:
 		panic("unreachable: phi")
@@ -308,28 +399,21 @@ func (m *Machine) call(caller *frame, callpos token.Pos, fn value, args []value)
 const maxDepth = 3000
 
 func (m *Machine) callSSA(caller *frame, callpos token.Pos, fn *ssa.Function, args []value, env []value) value {
-	fr := &frame{m: m, caller: caller, fn: fn}
-	if fn.Parent() == nil {
-		name := fn.String()
-		if ext := externals[name]; ext != nil {
-			saved := m.curFrame
-			m.curFrame = fr
-			r := ext(m, fr, args)
-			m.curFrame = saved
-			if _, nh := r.(notHandledT); !nh {
-				return r
-			}
+	info := m.infoFor(fn)
+	fr := &frame{m: m, caller: caller, fn: fn, info: info}
+	if info.ext != nil {
+		saved := m.curFrame
+		m.curFrame = fr
+		r := info.ext(m, fr, args)
+		m.curFrame = saved
+		if _, nh := r.(notHandledT); !nh {
+			return r
 		}
-		// package initialisers: only the target package and a whitelist of
-		// pure-data standard library packages are executed.
-		if fn.Name() == "init" && fn.Pkg != nil && fn == fn.Pkg.Func("init") {
-			if fn.Pkg != m.target && !initWhitelist[fn.Pkg.Pkg.Path()] {
-				return nil
-			}
-		}
-		if fn.Blocks == nil {
-			panic(unsupported{"no code for function: " + name})
-		}
+	}
+	// package initialisers: only the target package and a whitelist of
+	// pure-data standard library packages are executed.
+	if info.skipInit {
+		return nil
 	}
 	if fn.Blocks == nil {
 		panic(unsupported{"no code for function: " + fn.String()})
@@ -343,18 +427,18 @@ func (m *Machine) callSSA(caller *frame, callpos token.Pos, fn *ssa.Function, ar
 	}
 	saved := m.curFrame
 	m.curFrame = fr
-	fr.env = make(map[ssa.Value]value, 16)
+	fr.env = make([]value, info.nregs)
 	fr.block = fn.Blocks[0]
 	fr.locals = make([]value, len(fn.Locals))
 	for i, l := range fn.Locals {
 		fr.locals[i] = zero(mustDeref(l.Type()))
-		fr.env[l] = &fr.locals[i]
+		fr.set(l, &fr.locals[i])
 	}
 	for i, p := range fn.Params {
-		fr.env[p] = args[i]
+		fr.set(p, args[i])
 	}
 	for i, fv := range fn.FreeVars {
-		fr.env[fv] = env[i]
+		fr.set(fv, env[i])
 	}
 	start := m.steps
 	for fr.block != nil {
@@ -381,13 +465,7 @@ func (m *Machine) runBlock(fr *frame) {
 }
 
 func executePhis(fr *frame) []ssa.Instruction {
-	firstNonPhi := -1
-	for i, instr := range fr.block.Instrs {
-		if _, ok := instr.(*ssa.Phi); !ok {
-			firstNonPhi = i
-			break
-		}
-	}
+	firstNonPhi := fr.info.firstNonPhi[fr.block]
 	nonPhis := fr.block.Instrs[firstNonPhi:]
 	if fr.skipPhis {
 		fr.skipPhis = false
@@ -402,7 +480,7 @@ func executePhis(fr *frame) []ssa.Instruction {
 			fr.phitemps = append(fr.phitemps, fr.get(phi.Edges[predIndex]))
 		}
 		for i, phi := range phis {
-			fr.env[phi.(*ssa.Phi)] = fr.phitemps[i]
+			fr.set(phi.(*ssa.Phi), fr.phitemps[i])
 		}
 	}
 	return nonPhis
@@ -432,7 +510,6 @@ func (m *Machine) concreteInt(v value, what string) int64 {
 	}
 	return asInt64(v)
 }
-
 
 // tryMerge turns a pure triangle/diamond below a symbolic branch into ite
 // terms instead of forking (the lowering of &&, ||, and small conditional
@@ -504,7 +581,7 @@ func (m *Machine) tryMerge(fr *frame, c *Term) bool {
 	}
 	// other predecessors' phi edges are irrelevant; install values and continue at J
 	for k, p := range phis {
-		fr.env[p] = merged[k]
+		fr.set(p, merged[k])
 	}
 	fr.prevBlock, fr.block = predT, J
 	fr.skipPhis = true
